@@ -6,11 +6,19 @@ import parsecorr
 from framework import Result
 
 ID = 'C16'
-LEAN_TARGETS = ['TexSoupProofs.Properties.C16', 'TexSoupProofs.Properties.C16Grammar']
+LEAN_TARGETS = ['TexSoupProofs.Properties.C16', 'TexSoupProofs.Properties.C16Grammar', 'TexSoupProofs.Properties.C02Sound']
 THEOREMS = ['TexSoup.C16.' + n for n in ('output_is_input', 'fixpoint_nodrop', 'second_pass_sublist')] + [
-    'TexSoup.C16G.serialisation_is_squeezed_text', 'TexSoup.C16G.squeezed_wf', 'TexSoup.C16G.squeezed_same_tree', 'TexSoup.C16G.reparse_fixed_point', 'TexSoup.C16G.noBareSizing_spec', 'TexSoup.C16G.reparse_fixed_point_of_source', 'TexSoup.C16G.reparse_exact']
-PARTIAL = ['for arbitrary strings over the token-kind alphabet the squeeze case is explored by the oracle; it is proved for every '
-           'well-formed document of the grammar (C16G.reparse_fixed_point_of_source) and, for all inputs, in the no-drop case']
+    'TexSoup.C16G.serialisation_is_squeezed_text', 'TexSoup.C16G.squeezed_wf', 'TexSoup.C16G.squeezed_same_tree', 'TexSoup.C16G.reparse_fixed_point', 'TexSoup.C16G.noBareSizing_spec', 'TexSoup.C16G.reparse_fixed_point_of_source', 'TexSoup.C16G.reparse_exact',
+    'TexSoup.C16.reparse_fixed_point_all', 'TexSoup.C02.parse_sound', 'TexSoup.C02.grammar_exhaustive']
+PARTIAL = ['proved for ALL strictly parsing inputs that are representable in the grammar (C16.reparse_fixed_point_all, via the '
+           'exhaustiveness theorem C02.parse_sound: a representable strict parse IS the tree of a well-formed document): the '
+           'serialised text re-parses, in both tolerance modes, to a tree of the same shape and the same text. Side '
+           'conditions: no NUL/DEL; the property\'s own (no bare sizing prefix as a command name; environment names written '
+           'plainly after \\begin – finding F4b); representability: no made-up arguments, fixed-signature commands with their '
+           'arguments as declared, `{name}` groups of one token, no backslash at the very end, and – a gap of the proof, '
+           'not of the parser – no argument-less command directly followed by a brace group in the body of a math-mode '
+           'environment. Outside these (made-up arguments, `\\def` at the end of input, `\\section{a}[b]`) the squeeze case '
+           'is explored by the oracle; the no-drop case is proved for all inputs']
 TRUSTED = ['harness/gen_tables.py', 'correspondence harness (parsecorr.py): parse of s and of the serialised text',
            'modelled, not verified: control flow of reader.py, tokens.py, data.py serialisers']
 ASSUMPTIONS = ['CPython str semantics', 'the model driver is the compiled form of the verified definitions']
